@@ -1,7 +1,219 @@
+/-
+  Driver operations of the heuristics group (C11 majority, C12 aspect elimination, C13 satisfaction,
+  C14 generated aspiration levels).  Mirrors harness/main/c11.go … c14.go.
+-/
 import Rdm.Ops.Codec
+import Rdm.Model.Heuristics
+import Rdm.Model.Levels
+import Rdm.Spec.C11
+import Rdm.Spec.C12
+import Rdm.Spec.C13
+import Rdm.Spec.C14
 namespace Rdm.Ops
 open Rdm
+variable {α : Type} [Num α]
 
-def heuristicsOps : List (String × (List SExp → R SExp)) := []
+/-! ### codecs -/
+
+/-- `(id value comparedWith comparedAlternativeValue (links...))` -/
+def encMajEntry (e : Linked (MajEval α)) : SExp :=
+  .list [SExp.str e.id, SExp.num e.ev.value, SExp.str e.ev.cmp, SExp.num e.ev.cav, encStrs e.links]
+
+def decMajEntry (e : SExp) : R (Linked (MajEval α)) := do
+  match e with
+  | .list [i, v, c, o, l] => pure ⟨← i.asStr, ⟨← v.asNum, ← c.asStr, ← o.asNum⟩, ← decStrs l⟩
+  | _ => throw s!"bad majority entry {e}"
+
+/-- `(id thresholdsIndex ((crit threshold)...) (links...))` -/
+def encAspEntry (e : Linked (AspEval α)) : SExp :=
+  .list [SExp.str e.id, SExp.nat e.ev.idx, encNumMap e.ev.thr, encStrs e.links]
+
+def decAspEntry (e : SExp) : R (Linked (AspEval α)) := do
+  match e with
+  | .list [i, x, t, l] => pure ⟨← i.asStr, ⟨← x.asNat, ← decNumMap t⟩, ← decStrs l⟩
+  | _ => throw s!"bad aspect entry {e}"
+
+def encSatEntry (e : Linked (SatEval α)) : SExp :=
+  .list [SExp.str e.id, SExp.nat e.ev.idx, encNumMap e.ev.thr, encStrs e.links]
+
+def decSatEntry (e : SExp) : R (Linked (SatEval α)) := do
+  match e with
+  | .list [i, x, t, l] => pure ⟨← i.asStr, ⟨← x.asNat, ← decNumMap t⟩, ← decStrs l⟩
+  | _ => throw s!"bad satisfaction entry {e}"
+
+def encLevelList (l : List (KMap α)) : SExp := .list (l.map encNumMap)
+def decLevelList (e : SExp) : R (List (KMap α)) := e.mapList decNumMap
+
+/-- `(ok v)` | `(err)` as reported by the harness for a Go stage that may panic -/
+def decRes {β : Type} (e : SExp) (f : SExp → R β) : R (R β) := do
+  match e with
+  | .list [.atom "ok", v] => pure (pure (← f v))
+  | .list [.atom "err"] => pure (throw "reported-error")
+  | _ => throw s!"bad result {e}"
+
+def decCoefKind (e : SExp) : R CoefKind := do
+  match ← e.asAtom with
+  | "incMul" => pure .incMul
+  | "incAdd" => pure .incAdd
+  | "decMul" => pure .decMul
+  | "decSub" => pure .decSub
+  | s => throw s!"bad coefficient kind {s}"
+
+/-! ### C11 -/
+
+/-- `(majority-evaluate dmp (draws...))` → `(ok (entry...))` | `(err)` -/
+def opMajorityEvaluate (args : List SExp) : R SExp := do
+  match args with
+  | [d, ds] =>
+    let dmp : DMP Float ← decDMP d
+    pure (encR (majorityEvaluate dmp (← decNums ds)) fun l => .list (l.map encMajEntry))
+  | _ => throw "majority-evaluate: arity"
+
+/-- `(majority-compare (wcrit...) alt alt)` → `(ok (s1 s2))` | `(err)` -/
+def opMajorityCompare (args : List SExp) : R SExp := do
+  match args with
+  | [wc, a, b] =>
+    let wc : List (WCrit Float) ← wc.mapList decWCrit
+    pure (encR (compareAlts wc (← decAlt a) (← decAlt b)) fun p => .list [SExp.num p.1, SExp.num p.2])
+  | _ => throw "majority-compare: arity"
+
+/-- `(check-c11 (wcrit...) (alt...) policy (entry...))` on the implementation's output -/
+def opCheckC11 (args : List SExp) : R SExp := do
+  match args with
+  | [wc, order, pol, out] =>
+    let wc : List (WCrit Rat) ← wc.mapList decWCrit
+    let out : List (Linked (MajEval Rat)) ← out.mapList decMajEntry
+    pure (.atom (Spec.C11.explain wc (← decAlts order) (← pol.asStr) out))
+  | _ => throw "check-c11: arity"
+
+/-! ### C12 -/
+
+/-- `(aspect-evaluate dmp (draws...) levels)` with `levels` = `(ok (level...))` | `(err)` as the
+    implementation's own source reported them; distinct weights -/
+def opAspectEvaluate (args : List SExp) : R SExp := do
+  match args with
+  | [d, ds, lv] =>
+    let dmp : DMP Float ← decDMP d
+    let levels ← decRes lv decLevelList
+    pure (encR (aspectEvaluateWith dmp (← decNums ds) levels sortCriteriaDesc) fun l => .list (l.map encAspEntry))
+  | _ => throw "aspect-evaluate: arity"
+
+/-- `(aspect-evaluate-full dmp (draws...))`: the model generates the levels itself -/
+def opAspectEvaluateFull (args : List SExp) : R SExp := do
+  match args with
+  | [d, ds] =>
+    let dmp : DMP Float ← decDMP d
+    pure (encR (aspectEvaluate dmp (← decNums ds)) fun l => .list (l.map encAspEntry))
+  | _ => throw "aspect-evaluate-full: arity"
+
+def descendingF : List (WCrit Float) → Bool
+  | a :: b :: rest => decide (b.w ≤ a.w) && descendingF (b :: rest)
+  | _ => true
+
+/-- `(aspect-evaluate-some dmp (draws...) levels goResult)` for tied weights: does SOME criteria order
+    compatible with the weights (and the known shuffle) reproduce the implementation's result
+    exactly?  `goResult` = `(ok (entry...))` | `(err)` -/
+def opAspectEvaluateSome (args : List SExp) : R SExp := do
+  match args with
+  | [d, ds, lv, go] =>
+    let dmp : DMP Float ← decDMP d
+    let levels ← decRes lv decLevelList
+    let draws : List Float ← decNums ds
+    let go := toString go
+    let w ← match dmp.mp with
+      | .aspect _ _ _ w _ => pure w
+      | _ => throw "aspect-evaluate-some: not aspect parameters"
+    match zipWithWeights dmp.crit w with
+    | .error _ =>
+      -- no order exists: the model's answer does not depend on it
+      let r := encR (aspectEvaluateWith dmp draws levels id) fun l => .list (l.map encAspEntry)
+      pure (.atom (if toString r == go then "ok" else "no-compatible-order:" ++ toString r))
+    | .ok wc =>
+      let orders := (Spec.C12.perms wc).filter descendingF
+      let hit := orders.any fun o =>
+        toString (encR (aspectEvaluateWith dmp draws levels (fun _ => o)) fun l => .list (l.map encAspEntry)) == go
+      pure (.atom (if hit then "ok" else "no-compatible-order"))
+  | _ => throw "aspect-evaluate-some: arity"
+
+/-- `(check-c12 (alt...) (wcrit...) (level...) (entry...))` -/
+def opCheckC12 (args : List SExp) : R SExp := do
+  match args with
+  | [alts, wc, lv, out] =>
+    let wc : List (WCrit Rat) ← wc.mapList decWCrit
+    let out : List (Linked (AspEval Rat)) ← out.mapList decAspEntry
+    pure (.atom (Spec.C12.explain (← decAlts alts) wc (← decLevelList lv) out))
+  | _ => throw "check-c12: arity"
+
+/-! ### C13 -/
+
+/-- `(satisfaction-evaluate dmp (draws...) levels)` -/
+def opSatisfactionEvaluate (args : List SExp) : R SExp := do
+  match args with
+  | [d, ds, lv] =>
+    let dmp : DMP Float ← decDMP d
+    let levels ← decRes lv decLevelList
+    pure (encR (satisfactionEvaluateWith dmp (← decNums ds) levels) fun l => .list (l.map encSatEntry))
+  | _ => throw "satisfaction-evaluate: arity"
+
+def opSatisfactionEvaluateFull (args : List SExp) : R SExp := do
+  match args with
+  | [d, ds] =>
+    let dmp : DMP Float ← decDMP d
+    pure (encR (satisfactionEvaluate dmp (← decNums ds)) fun l => .list (l.map encSatEntry))
+  | _ => throw "satisfaction-evaluate-full: arity"
+
+/-- `(search-order dmp current random (draws...))` → `(ok (alt...))` | `(err)` -/
+def opSearchOrder (args : List SExp) : R SExp := do
+  match args with
+  | [d, cur, rnd, ds] =>
+    let dmp : DMP Float ← decDMP d
+    let r := searchOrder dmp (← cur.asStr) (← rnd.asBool) (← decNums ds)
+    pure (encR r fun p => encAlts (p.1.1 :: p.1.2))
+  | _ => throw "search-order: arity"
+
+/-- `(check-c13 (alt...) (crit...) (level...) (alt...) (entry...))`: search order, criteria, levels,
+    all known alternatives, output -/
+def opCheckC13 (args : List SExp) : R SExp := do
+  match args with
+  | [order, cs, lv, all, out] =>
+    let out : List (Linked (SatEval Rat)) ← out.mapList decSatEntry
+    pure (.atom (Spec.C13.explain (← decAlts order) (← decCrits cs) (← decLevelList lv) (← decAlts all) out))
+  | _ => throw "check-c13: arity"
+
+/-! ### C14 -/
+
+/-- `(levels-series inc|dec function levels dmp)` → `(ok (level...))` | `(err)`: Find + Initialize +
+    HasNext/Next loop on the sources main.go registers for aspect elimination (inc) / satisfaction (dec) -/
+def opLevelsSeries (args : List SExp) : R SExp := do
+  match args with
+  | [dir, fn, lv, d] =>
+    let dmp : DMP Float ← decDMP d
+    let sources ← match ← dir.asAtom with
+      | "inc" => pure aspectSources
+      | "dec" => pure satisfactionSources
+      | s => throw s!"levels-series: bad direction {s}"
+    pure (encR (levelsOf sources (← fn.asStr) (← decLevels lv) dmp) encLevelList)
+  | _ => throw "levels-series: arity"
+
+/-- `(check-c14 kind c max min (crit...) (alt...) result)`, `result` = `(ok (level...))` | `(err)` -/
+def opCheckC14 (args : List SExp) : R SExp := do
+  match args with
+  | [k, c, mx, mn, cs, all, res] =>
+    let out : Option (List (KMap Rat)) ← match res with
+      | .list [.atom "ok", v] => pure (some (← decLevelList v))
+      | .list [.atom "err"] => pure none
+      | _ => throw s!"bad result {res}"
+    pure (.atom (Spec.C14.explain (← decCoefKind k) (← c.asNum) (← mx.asNum) (← mn.asNum)
+      (← decCrits cs) (← decAlts all) out))
+  | _ => throw "check-c14: arity"
+
+def heuristicsOps : List (String × (List SExp → R SExp)) :=
+  [("majority-evaluate", opMajorityEvaluate), ("majority-compare", opMajorityCompare),
+   ("check-c11", opCheckC11),
+   ("aspect-evaluate", opAspectEvaluate), ("aspect-evaluate-full", opAspectEvaluateFull),
+   ("aspect-evaluate-some", opAspectEvaluateSome), ("check-c12", opCheckC12),
+   ("satisfaction-evaluate", opSatisfactionEvaluate), ("satisfaction-evaluate-full", opSatisfactionEvaluateFull),
+   ("search-order", opSearchOrder), ("check-c13", opCheckC13),
+   ("levels-series", opLevelsSeries), ("check-c14", opCheckC14)]
 
 end Rdm.Ops
